@@ -9,3 +9,4 @@ import DafRel.Props.C17
 #print axioms DafRel.Props.C17.sql_apply_sound
 #print axioms DafRel.Props.C17.sql_join_factory_sound
 #print axioms DafRel.Props.C17.factory_results_are_conformed
+#print axioms DafRel.Props.C17.bridge_select_apply_skip
